@@ -194,6 +194,22 @@ Section Spec.
     destruct (existsb (param_gives_up name (bails name)) l); reflexivity.
   Qed.
 
+  Lemma count_keys_map_snd : forall p (g : option node * option node -> option node) l,
+    count_keys p (map (fun kv => (fst kv, g kv)) l) = count_keys p l.
+  Proof.
+    intros p g l. unfold count_keys.
+    induction l as [|kv tl IH]; simpl; [reflexivity|].
+    destruct (p (fst kv)); simpl; rewrite IH; reflexivity.
+  Qed.
+
+  Lemma count_keys_alias : forall p l,
+    count_keys p (alias_pairs (same_reg name) l) = count_keys p l.
+  Proof. intros p l. unfold alias_pairs. apply count_keys_map_snd. Qed.
+
+  Lemma dup_keys_alias : forall l,
+    dup_keys name (alias_pairs (same_reg name) l) = dup_keys name l.
+  Proof. intros l. unfold dup_keys. rewrite !count_keys_alias. reflexivity. Qed.
+
   Ltac split_wf H :=
     repeat match type of H with
            | (_ && _) = true => let H1 := fresh "Hw" in let H2 := fresh "Hw" in
@@ -244,7 +260,9 @@ Section Spec.
       rewrite (L_pslice ps H Hw1). destruct (any_params name (bails name) ps); simpl; [reflexivity|].
       rewrite (L_body b H0 Hw2). destruct (fold_opt (bails name) false b); reflexivity.
     - (* call *)
-      rewrite (L_slice args H Hwf). destruct (any_slice (bails name) args); reflexivity.
+      rewrite (L_slice args H Hwf). destruct (any_slice (bails name) args); simpl; [reflexivity|].
+      destruct fn as [c|]; [|reflexivity].
+      destruct (is_ident_of name c); reflexivity.
     - (* array *)
       rewrite (L_slice e H Hwf). destruct (any_slice (bails name) e); reflexivity.
     - (* index *)
@@ -252,7 +270,9 @@ Section Spec.
       rewrite (L_child l H Hw1). destruct (fold_opt (bails name) false l); simpl; [reflexivity|].
       rewrite (L_child i H0 Hw2). destruct (fold_opt (bails name) false i); reflexivity.
     - (* map *)
-      rewrite (L_pairs l H Hwf). destruct (any_pairs (bails name) l); reflexivity.
+      rewrite (L_pairs l H Hwf). destruct (any_pairs (bails name) l); simpl; [reflexivity|].
+      rewrite dup_keys_alias.
+      destruct (dup_keys name _); reflexivity.
     - (* macro *)
       apply andb_prop in Hwf as [Hw1 Hw2].
       rewrite (L_pslice ps H Hw1). destruct (any_params name (bails name) ps); simpl; [reflexivity|].
